@@ -641,6 +641,8 @@ def gen_shape(rng, samples, P):
             return ("tup", [gen_shape(rng, [e], P) for e in samples[0]["v"]])
         return ("seq", gen_shape(rng, vs, P) if vs else rng.choice(["str", ("u", 8)]))
     if t == "rgb":
+        if P.get("rgb_any") and rng.random() < 0.5:
+            return "any"
         w = rng.choice([8, 16, 32, 64])
         lens = set(len(s["c"]) for s in samples)
         if len(lens) == 1 and rng.random() < 0.3:
